@@ -91,6 +91,9 @@ package snowflake_server
 //@   at call Set assert {registers-this-request-address} arg2 == addr
 //@   at call Set assert {registers-the-id-just-read} arg1 == clientID
 //@   at call Set assert {id-complete-before-use} calls(ReadFull) == 1 && idComplete
+//@   at entry ghost idComplete = false
+//@   at call Wait assert {address-registered-before-the-carrier-relays} calls(Set) == 1
+//@   ensures {every-carrier-with-a-complete-id-registers-its-address} idComplete ==> calls(Set) == 1
 //
 //@ func (handler *httpHandler) ServeHTTP(w http.ResponseWriter, r *http.Request)
 //@   props C18, C05
